@@ -288,7 +288,7 @@ class FeArray(np.ndarray):
             # broadcasting against a FeArray always keeps the (Ne, nPg) axes
             return res.view(FeArray)
         feShape = _FeShape(inputs)
-        if method == "reduce" and not _KeepsFeAxes(
+        if method in ("reduce", "accumulate", "reduceat") and not _KeepsFeAxes(
             kwargs.get("axis", 0), np.ndim(inputs[0])
         ):
             # ufunc.reduce consumed the element or Gauss-point axis (axis defaults to 0)
@@ -499,9 +499,32 @@ class FeArray(np.ndarray):
         "all",
         "any",
         "ravel",
+        "cumsum",
+        "cumprod",
     ):
         locals()[_name] = _make_reducer(_name)
     del _name, _make_reducer
+
+    def flatten(self, *args, **kwargs):
+        return self.view(np.ndarray).flatten(*args, **kwargs)
+
+    def trace(self, offset=0, axis1=0, axis2=1, *args, **kwargs):
+        res = self.view(np.ndarray).trace(offset, axis1, axis2, *args, **kwargs)
+        if _KeepsFeAxes((axis1, axis2), self.ndim) and getattr(res, "ndim", 0) >= 2:
+            return res.view(FeArray)
+        return np.asarray(res)
+
+    def transpose(self, *axes):
+        res = self.view(np.ndarray).transpose(*axes)
+        if _KeepsLeadingAxes(np.ndarray.transpose, (self,) + axes, {}, self.ndim):
+            return res.view(FeArray)
+        return res
+
+    def swapaxes(self, axis1, axis2):
+        res = self.view(np.ndarray).swapaxes(axis1, axis2)
+        if _KeepsLeadingAxes(np.ndarray.swapaxes, (self, axis1, axis2), {}, self.ndim):
+            return res.view(FeArray)
+        return res
 
     def reshape(self, *args, **kwargs):
         new = super().reshape(*args, **kwargs)
